@@ -3,10 +3,10 @@
 (* Judge for C07: validates ndjson traces recorded from the real code      *)
 (* (harness/C07_arvados, harness/C07_keepstore) against BlobSigContract.   *)
 (* Events:                                                                 *)
-(*   {"ev":"reset","scn":id,"wf":bool,"same":bool, ...concrete details...} *)
+(*   {"ev":"reset","scn":id,"wf":bool,"same":bool,"lenonly":bool, ...}     *)
 (*   {"ev":"signloc","sigok":b,"expok":b}     (prefixok: drift only)        *)
 (*   {"ev":"putloc","sigok":b}                (keepstore PUT's locator)     *)
-(*   {"ev":"verifyks","rel":..,"ok":b}        (keepstore's wrapper)         *)
+(*   {"ev":"verifyks","rel":..,"res":"ok"|"expired"|"denied"}  (keepstore's wrapper) *)
 (*   {"ev":"verify","via":..,"rel":"past"|"near"|"future","res":verdict}   *)
 (*   {"ev":"ksget","rel":..,"status":int}                                  *)
 (*   {"ev":"signtok","hin":[hint..],"hout":[hint..],"sigok":b}               *)
@@ -15,14 +15,14 @@
 EXTENDS BlobSigContract, TraceIO
 
 TraceInit == /\ l = 1
-             /\ CInit(TRUE, TRUE)
+             /\ CInit(TRUE, TRUE, FALSE)
 
 TraceReset == /\ IsEvent("reset")
-              /\ inp' = [wf |-> Ev.wf, same |-> Ev.same]
+              /\ inp' = [wf |-> Ev.wf, same |-> Ev.same, lenonly |-> Ev.lenonly]
 
 TraceSignLoc == IsEvent("signloc") /\ SignLoc(Ev.sigok, Ev.expok)
 TracePutLoc  == IsEvent("putloc")  /\ PutLoc(Ev.sigok)
-TraceVerifyKs == IsEvent("verifyks") /\ VerifyKs(Ev.rel, Ev.ok)
+TraceVerifyKs == IsEvent("verifyks") /\ VerifyKs(Ev.rel, Ev.res)
 TraceVerify  == IsEvent("verify")  /\ Verify(Ev.rel, Ev.res)
 TraceKsGet   == IsEvent("ksget")   /\ KsGet(Ev.rel, Ev.status)
 TraceSignTok == IsEvent("signtok") /\ SignTok(Ev.hin, Ev.hout, Ev.sigok)
